@@ -254,38 +254,36 @@ def replay_counterexample(crate, scratch, h, failed, logdir):
     rc, _ = run_cmd(cmd, crate, TIER_TIMEOUT["thorough"], logfile)
     text = open(logfile).read()
     tests = PLAYBACK_RE.findall(text)
-    chosen = None
-    for body, name in tests:
-        m = re.search(r"Check for `(\w+)`: \"(.*)\"", body)
+    # Kani de-duplicates generated tests by their concrete values, so the values that falsify
+    # an assertion may be labelled with a cover property that the same trace satisfies: try the
+    # tests labelled with a failing check first, then every other one.
+    def rank(t):
+        m = re.search(r"Check for `(\w+)`: \"(.*)\"", t[0])
         if m and m.group(1) != "cover":
             if any(f["desc"].strip('"') in m.group(2) or m.group(2).strip('"') in f["desc"] for f in failed):
-                chosen = (body, name)
-                break
-    if chosen is None:
-        for body, name in tests:
-            m = re.search(r"Check for `(\w+)`", body)
-            if m and m.group(1) != "cover":
-                chosen = (body, name)
-                break
-    if chosen is None:
-        return None, "", "Kani produced no concrete playback test for the failing check (see %s)" % logfile
-    body, name = chosen
+                return 0
+            return 1
+        return 2
+    tests = sorted(tests, key=rank)
+    if not tests:
+        return None, "", "Kani produced no concrete playback test (see %s)" % logfile
     vh = os.path.join(scratch, "vh", h["file"])
     with open(vh, "a") as fh:
-        fh.write("\n" + body + "\n")
-    logfile2 = os.path.join(logdir, "playback-run-%s.log" % h["name"])
-    rc, _ = run_cmd(["cargo", "kani", "playback", "-Z", "concrete-playback", "--", name], crate, 900, logfile2)
-    out = open(logfile2).read()
-    reproduced = None
-    if re.search(r"test result: FAILED", out) and name in out:
-        reproduced = True
-    elif re.search(r"test result: ok\. 1 passed", out):
-        reproduced = False
-    panic = ""
-    m = re.search(r"panicked at ([^\n]*)\n([^\n]*)", out)
-    if m:
-        panic = (m.group(1) + " " + m.group(2)).strip()
-    return reproduced, body, panic or ("playback log: " + logfile2)
+        for body, name in tests:
+            fh.write("\n" + body + "\n")
+    last = ""
+    for body, name in tests[:6]:
+        logfile2 = os.path.join(logdir, "playback-run-%s-%s.log" % (h["name"], name[-6:]))
+        rc, _ = run_cmd(["cargo", "kani", "playback", "-Z", "concrete-playback", "--", name], crate, 900, logfile2)
+        out = open(logfile2).read()
+        panic = ""
+        m = re.search(r"panicked at ([^\n]*)\n([^\n]*)", out)
+        if m:
+            panic = (m.group(1) + " " + m.group(2)).strip()
+        if re.search(r"test result: FAILED", out) and name in out:
+            return True, body, panic or ("playback log: " + logfile2)
+        last = "playback log: " + logfile2
+    return False, "", "none of %d generated tests fails natively; %s" % (len(tests), last)
 
 
 def write_replay_file(prop, h, failed, body, detail):
